@@ -334,7 +334,10 @@ LATIN = "abcdefghijklmnopqrstuvwxyzABCDEFGHIJKLMNOPQRSTUVWXYZ0123456789"
 WORDS = ["meeting", "Réunion", "Besprechung", "собрание", "会議", "lunch", "déjeuner", "call", "review", "Zürich", "São Paulo",
          "naïve", "café", "日本語テキスト", "ελληνικά", "עברית", "emoji 😀 ok", "tab\there", "x" * 30, "a b  c", "№ 5", "“quoted”", "it's",
          "q\"dq\"", "colon: here", "eq=sign", "100%", "(paren)", "<tag>", "&amp;", "back`tick", "pipe|", "^caret", "~tilde", "#hash", "@at",
-         "semi; colon", "comma, sep", "back\\slash", "new\nline", "two\n\nlines", "trail ", " lead"]
+         "semi; colon", "comma, sep", "back\\slash", "new\nline", "two\n\nlines", "trail ", " lead",
+         # characters at which str.splitlines() breaks but which are ordinary characters of a content line
+         # (only CRLF ends a line; VT FF FS GS RS are removed by the control-character clean-up, these three are not)
+         "line\u2028sep", "para\u2029sep", "nel\u0085here"]
 
 
 class Gen:
